@@ -39,6 +39,7 @@ type lifeState struct {
 	last             string
 	lastPos          string
 	lastErr, lastVal *eng.Term
+	execErr, execVal *eng.Term // results of the latest exec callback (kept across a fallback)
 	prepVal, prepErr *eng.Term
 	nodeTerm         *eng.Term
 	emptyBatch       bool
@@ -69,12 +70,12 @@ func (s lifeState) Key() string {
 	for _, d := range s.done {
 		sb.WriteString(d.Key() + ";")
 	}
-	fmt.Fprintf(&sb, "|%v,%s,%s", s.waited, s.waitDur.Key(), s.waitTerm.Key())
+	fmt.Fprintf(&sb, "|%v,%s,%s|%s,%s", s.waited, s.waitDur.Key(), s.waitTerm.Key(), s.execErr.Key(), s.execVal.Key())
 	return sb.String()
 }
 
 func (s lifeState) Terms() []*eng.Term {
-	out := []*eng.Term{s.lastErr, s.lastVal, s.prepVal, s.prepErr, s.nodeTerm, s.obs, s.waitDur, s.waitTerm}
+	out := []*eng.Term{s.lastErr, s.lastVal, s.prepVal, s.prepErr, s.nodeTerm, s.obs, s.waitDur, s.waitTerm, s.execErr, s.execVal}
 	for _, t := range s.timers {
 		out = append(out, t.ch, t.dur)
 	}
@@ -97,6 +98,7 @@ func (s lifeState) Rename(sub func(*eng.Term) *eng.Term) eng.MState {
 	}
 	n := s
 	n.lastErr, n.lastVal, n.prepVal, n.prepErr, n.nodeTerm = m(s.lastErr), m(s.lastVal), m(s.prepVal), m(s.prepErr), m(s.nodeTerm)
+	n.execErr, n.execVal = m(s.execErr), m(s.execVal)
 	n.obs, n.waitDur, n.waitTerm = m(s.obs), m(s.waitDur), m(s.waitTerm)
 	n.loops = append([]loopRec(nil), s.loops...)
 	n.timers = nil
@@ -550,6 +552,7 @@ func (m *LifeMon) onExec(c *eng.Ctx, s lifeState, ev *eng.Event, batch bool, chk
 	}
 	chk(rule, m.fresh(c, s), "no context observation (not-cancelled edge) between the previous user callback and this exec attempt")
 	s.last, s.lastVal, s.lastErr = "Exec", ev.Results[0], ev.Results[1]
+	s.execVal, s.execErr = ev.Results[0], ev.Results[1]
 	s.lastPos = posStr(ev.Pos)
 	s.timers, s.done = nil, nil
 	r = s.rec(id)
@@ -596,6 +599,9 @@ func (m *LifeMon) onPost(c *eng.Ctx, s lifeState, ev *eng.Event, batch bool, chk
 		okArgs := len(ev.Args) == 4 && ev.Args[0] == m.Ctx && ev.Args[1] == m.Shared && ev.Args[2] == s.prepVal && ev.Args[3] == s.lastVal
 		chk("C01.R3", okArgs, "post must receive (ctx, the run's store, prep's value, the exec phase's result), got ("+prettyArgs(ev.Args)+")")
 		chk("C05.R2", !s.cutAny, "post is invoked on a path that has observed the context as cancelled")
+		if s.execErr != nil && knownNil(c, s.execErr) && len(ev.Args) == 4 {
+			chk("C17.R7", ev.Args[3] == s.execVal, "the latest exec returned without error, so post must receive exactly what it returned (an error Result included), got "+ev.Args[3].Pretty()+" instead of "+s.execVal.Pretty())
+		}
 	} else {
 		chk("C01.R3", len(ev.Args) == 4 && ev.Args[0] == m.Ctx && ev.Args[1] == m.Shared, "post must receive the run's context and store, got ("+prettyArgs(ev.Args)+")")
 		chk("C01.R3", s.nPrep == 1 && knownNil(c, s.prepErr), "batch post requires a successful prep")
